@@ -10,6 +10,9 @@ package hpack
 //@ spec vmask(n byte) uint64 := (uint64(1) << uint64(n)) - 1
 //@ spec vacc(p []byte, j int) uint64 := j <= 0 ? 0 : vacc(p, j-1) + (uint64(p[j] & 127) << uint64(7*(j-1)))
 
+//@ spec vterminator(p []byte, j int) int := (j >= 10 || p[j] & 128 == 0) ? j : vterminator(p, j+1)
+//@ spec rvi(n byte, p []byte) uint64 := (uint64(p[0]) & vmask(n)) < vmask(n) ? (uint64(p[0]) & vmask(n)) : vmask(n) + vacc(p, vterminator(p, 1))
+
 //@ func readVarInt
 //@   props C31
 //@   arith bv
@@ -21,9 +24,15 @@ package hpack
 //@   ensures[error_consumes_nothing] err != nil ==> i == 0 && sameslice(remain, p)
 //@   ensures[success_consumes] err == nil ==> c >= 1
 //@   ensures[short_form!bv] err == nil && c == 1 ==> i == (uint64(p[0]) & vmask(n)) && i < vmask(n)
-//@   ensures[long_form_shape!bv] err == nil && c != 1 ==> c <= 10 && (uint64(p[0]) & vmask(n)) == vmask(n) && p[c-1] & 128 == 0 && (forall t int :: 1 <= t && t < c-1 ==> p[t] & 128 != 0)
+//@   ensures[long_form_at_most_10_octets!bv] err == nil && c != 1 ==> c <= 10
+//@   ensures[long_form_prefix_all_ones!bv] err == nil && c != 1 ==> (uint64(p[0]) & vmask(n)) == vmask(n)
+//@   ensures[long_form_last_octet!bv] err == nil && c != 1 ==> p[c-1] & 128 == 0
+//@   ensures[long_form_continuation_octets!bv] err == nil && c != 1 ==> (forall t int :: 1 <= t && t < c-1 ==> p[t] & 128 != 0)
 //@   ensures[long_form_value!bv] err == nil && c != 1 ==> i == vmask(n) + vacc(p, c-1)
+//@   ensures[terminator!bv] err == nil && c != 1 ==> vterminator(p, 1) == c-1
+//@   ensures[is_the_rfc7541_integer_of_its_input] err == nil ==> i == rvi(n, p)
 //@   let j := off(p) - off(origP)
+//@   loop 1 invariant[terminator_not_before_j] vterminator(origP, 1) == vterminator(origP, j)
 //@   loop 1 invariant[window] base(p) == base(origP) && off(p) + len(p) == off(origP) + len(origP) && 1 <= j && j <= len(origP) && j <= 9
 //@   loop 1 invariant[shift] m == uint64(7*(j-1))
 //@   loop 1 invariant[prefix_is_mask] (uint64(origP[0]) & vmask(n)) == vmask(n)
@@ -78,5 +87,5 @@ package hpack
 //@   props C31
 //@   nopanic
 //@   requires d != nil && int(d.dynTab.size) == nn(ssum(d.dynTab.ents)) && nn(ssum(d.dynTab.ents)) < 4294967296
-//@   ensures[update_above_allowed_maximum_is_an_error] result0 == nil ==> d.dynTab.maxSize <= old(d.dynTab.allowedMaxSize) && d.dynTab.size <= d.dynTab.maxSize
+//@   ensures[update_above_allowed_maximum_is_an_error] result0 == nil ==> rvi(5, old(d.buf)) <= uint64(old(d.dynTab.allowedMaxSize)) && uint64(d.dynTab.maxSize) == rvi(5, old(d.buf)) && d.dynTab.size <= d.dynTab.maxSize
 //@   ensures[error_changes_nothing] result0 != nil ==> d.dynTab.maxSize == old(d.dynTab.maxSize) && d.dynTab.size == old(d.dynTab.size) && sameslice(d.buf, old(d.buf))
